@@ -4,19 +4,25 @@
 //! the real side (independently of the model) that the aggregate of the txpool validates against
 //! the real head, that stempool-on-txpool does, and that a block built from
 //! prepare_mineable_transactions() is accepted by process_block on a twin chain.
+//! The pieces are wired like servers/src/grin/server.rs does it: the chain's adapter is the REAL
+//! grin_servers ChainToPoolAndNetAdapter (with a Peers object that has no connections), the pool's view
+//! of the chain is the real PoolToChainAdapter; blocks are delivered with Options NONE / MINE / SYNC.
 use chrono::Duration;
 use grin_chain::types::{BlockStatus, ChainAdapter as ChainEvents};
 use grin_chain::{Chain, Options};
 use grin_core::core::hash::{Hash, Hashed};
 use grin_core::core::{
-	transaction, Block, BlockHeader, BlockSums, FeeFields, Inputs, KernelFeatures, NRDRelativeHeight,
-	Output, OutputIdentifier, Transaction, TxKernel,
+	transaction, Block, BlockHeader, BlockSums, CommitWrapper, FeeFields, Input, Inputs, KernelFeatures,
+	NRDRelativeHeight, Output, OutputFeatures, OutputIdentifier, Transaction, TxKernel,
 };
 use grin_core::global::{self, ChainTypes};
 use grin_core::libtx::{build, reward, ProofBuilder};
 use grin_core::pow::{self, Difficulty};
 use grin_core::genesis;
-use grin_keychain::{ExtKeychain, ExtKeychainPath, Identifier, Keychain};
+use grin_keychain::{ExtKeychain, ExtKeychainPath, Identifier, Keychain, SwitchCommitmentType};
+use grin_servers::common::adapters::{ChainToPoolAndNetAdapter, PoolToChainAdapter};
+use grin_servers::common::hooks::ChainEvents as ServerChainEvents;
+use grin_util::RwLock;
 use grin_pool::{BlockChain, PoolAdapter, PoolConfig, PoolEntry, PoolError, TransactionPool, TxSource};
 use grin_util::secp::pedersen::Commitment;
 use serde_json::{json, Value};
@@ -96,9 +102,21 @@ impl ChainEvents for StatusRec {
 	}
 }
 
-fn init_chain(dir: &str, rec: Arc<StatusRec>) -> Chain {
+fn init_chain(dir: &str, rec: Arc<dyn ChainEvents + Send + Sync>) -> Chain {
 	Chain::init(dir.to_string(), rec, the_genesis(), pow::verify_size, false, None).expect("chain init")
 }
+
+/// The hook handed to the real ChainToPoolAndNetAdapter: records the status of every accepted block.
+struct StatusHook {
+	rec: Arc<StatusRec>,
+}
+impl ServerChainEvents for StatusHook {
+	fn on_block_accepted(&self, b: &Block, status: BlockStatus) {
+		self.rec.block_accepted(b, status, Options::NONE);
+	}
+}
+
+type RealPool = TransactionPool<PoolToChainAdapter, PoolRec>;
 
 fn new_rec() -> Arc<StatusRec> {
 	Arc::new(StatusRec {
@@ -106,7 +124,9 @@ fn new_rec() -> Arc<StatusRec> {
 	})
 }
 
-/// pool/tests/common.rs style adapter over a real Chain
+/// pool/tests/common.rs style adapter over a real Chain (kept for reference; the replay uses the
+/// real PoolToChainAdapter of grin_servers)
+#[allow(dead_code)]
 #[derive(Clone)]
 struct PoolChain {
 	chain: Arc<Chain>,
@@ -190,6 +210,8 @@ struct World {
 	values: HashMap<u64, u64>,
 	txs: HashMap<u64, Transaction>,
 	id_of_kernel: HashMap<Commitment, u64>,
+	/// commitments of the coinbase outputs of the trunk (what an input spending them really refers to)
+	coinbase_commits: HashSet<Commitment>,
 }
 
 fn arr_u64(v: &Value) -> Vec<u64> {
@@ -300,11 +322,16 @@ fn build_world(beh: &Value) -> World {
 		id_of_kernel.insert(tx.kernels()[0].excess(), a.id);
 		txs.insert(a.id, tx);
 	}
+	let mut coinbase_commits = HashSet::new();
+	for c in 0..100u64 {
+		coinbase_commits.insert(kc.commit(REWARD, &kid_coinbase(c), SwitchCommitmentType::Regular).unwrap());
+	}
 	World {
 		atoms,
 		values,
 		txs,
 		id_of_kernel,
+		coinbase_commits,
 	}
 }
 
@@ -315,6 +342,34 @@ impl World {
 		} else {
 			let v: Vec<Transaction> = parts.iter().map(|a| self.txs[a].clone()).collect();
 			transaction::aggregate(&v).expect("aggregate of universe atoms")
+		}
+	}
+	/// The same transaction with its inputs written in the "features and commit" form; `flip` declares
+	/// the opposite of what every spent output really is (coinbase <-> plain). The declared features are
+	/// covered by no signature: anybody can write them.
+	fn with_declared_inputs(&self, tx: &Transaction, flip: bool) -> Transaction {
+		let commits: Vec<CommitWrapper> = tx.inputs().into();
+		let mut inputs: Vec<Input> = commits
+			.iter()
+			.map(|c| {
+				let cb = self.coinbase_commits.contains(&c.commitment()) ^ flip;
+				Input::new(if cb { OutputFeatures::Coinbase } else { OutputFeatures::Plain }, c.commitment())
+			})
+			.collect();
+		inputs.sort_unstable(); // the wire form is sorted (features first): a well-formed transaction
+		Transaction {
+			body: tx.body.clone().replace_inputs(inputs.as_slice().into()),
+			..tx.clone()
+		}
+	}
+	/// declared input features of a resident entry that contradict the real outputs
+	fn wrong_declared_features(&self, tx: &Transaction) -> usize {
+		match tx.inputs() {
+			Inputs::FeaturesAndCommit(v) => v
+				.iter()
+				.filter(|i| i.is_coinbase() != self.coinbase_commits.contains(&i.commitment()))
+				.count(),
+			Inputs::CommitOnly(_) => 0,
 		}
 	}
 	fn ids_of(&self, tx: &Transaction) -> Vec<u64> {
@@ -412,7 +467,8 @@ struct Node {
 	chain: Arc<Chain>,
 	rec: Arc<StatusRec>,
 	twin: Chain,
-	pool: TransactionPool<PoolChain, PoolRec>,
+	pool: Arc<RwLock<RealPool>>,
+	_peers: Arc<grin_p2p::Peers>,
 	prec: Arc<PoolRec>,
 	accepted_cands: HashSet<Hash>,
 	last_mine_key: Option<(Hash, Vec<Vec<u64>>)>,
@@ -434,8 +490,8 @@ fn body_weight(b: &Block) -> u64 {
 
 /// Everything that is checked on the real side independently of the model, after every action.
 fn real_checks(w: &World, n: &mut Node, step: usize, after: &str, mism: &mut Vec<Value>) -> Value {
-	let txs = n.pool.txpool.all_transactions();
-	let stem = n.pool.stempool.all_transactions();
+	let txs = n.pool.read().txpool.all_transactions();
+	let stem = n.pool.read().stempool.all_transactions();
 	let mut obs = json!({});
 	// (1) the aggregate of the public pool applies on the real head
 	let mut joint = "empty".to_string();
@@ -494,6 +550,9 @@ fn real_checks(w: &World, n: &mut Node, step: usize, after: &str, mism: &mut Vec
 	obs["stem_joint"] = json!(sj);
 	// (3) no resident entry pays less than the minimum for its weight
 	for t in txs.iter().chain(stem.iter()) {
+		if w.wrong_declared_features(t) > 0 {
+			mism.push(json!({"step": step, "what": "resident_input_features_wrong", "after": after, "tx": w.ids_of(t)}));
+		}
 		if w.underpaid(t, n.fee_base) {
 			mism.push(json!({"step": step, "what": "underpaid_resident", "after": after, "tx": w.ids_of(t)}));
 		}
@@ -507,7 +566,7 @@ fn real_checks(w: &World, n: &mut Node, step: usize, after: &str, mism: &mut Vec
 	let key = (head.hash(), ids_json(w, &txs));
 	if n.last_mine_key.as_ref() != Some(&key) {
 		n.last_mine_key = Some(key);
-		let r = catch_unwind(AssertUnwindSafe(|| n.pool.prepare_mineable_transactions()));
+		let r = catch_unwind(AssertUnwindSafe(|| n.pool.read().prepare_mineable_transactions()));
 		let mut m = json!({});
 		let mut bad: Option<String> = None;
 		match r {
@@ -580,8 +639,8 @@ fn real_checks(w: &World, n: &mut Node, step: usize, after: &str, mism: &mut Vec
 
 fn compare_pools(w: &World, n: &Node, proj: &Value, step: usize, mism: &mut Vec<Value>) -> bool {
 	let mut ok = true;
-	let tp = ids_json(w, &n.pool.txpool.all_transactions());
-	let sp = ids_json(w, &n.pool.stempool.all_transactions());
+	let tp = ids_json(w, &n.pool.read().txpool.all_transactions());
+	let sp = ids_json(w, &n.pool.read().stempool.all_transactions());
 	if tp != sets_of(&proj["txpool"]) {
 		mism.push(json!({"step": step, "what": "txpool", "expected": proj["txpool"], "observed": tp}));
 		ok = false;
@@ -611,13 +670,15 @@ fn replay_one(beh: &Value, work: &str, idx: usize) -> Value {
 	copy_dir(&tdir, &format!("{}/main", dir));
 	copy_dir(&tdir, &format!("{}/twin", dir));
 	let rec = new_rec();
-	let chain = Arc::new(init_chain(&format!("{}/main", dir), rec.clone()));
 	let twin = init_chain(&format!("{}/twin", dir), new_rec());
 	let prec = Arc::new(PoolRec {
 		events: Mutex::new(vec![]),
 		relay_ok: Mutex::new(true),
 	});
-	let pool = TransactionPool::new(
+	// pool <-> chain as in Server::new(): PoolToChainAdapter, ChainToPoolAndNetAdapter (+ a Peers object
+	// without connections, so that blocks can also arrive with Options::NONE / MINE)
+	let pool_adapter = Arc::new(PoolToChainAdapter::new());
+	let pool: Arc<RwLock<RealPool>> = Arc::new(RwLock::new(TransactionPool::new(
 		PoolConfig {
 			accept_fee_base: fee_base,
 			reorg_cache_period: 30,
@@ -625,14 +686,27 @@ fn replay_one(beh: &Value, work: &str, idx: usize) -> Value {
 			max_stempool_size: cfg["maxstem"].as_u64().unwrap() as usize,
 			mineable_max_weight: mine_weight,
 		},
-		Arc::new(PoolChain { chain: chain.clone() }),
+		pool_adapter.clone(),
 		prec.clone(),
-	);
+	)));
+	let chain_adapter = Arc::new(ChainToPoolAndNetAdapter::new(
+		pool.clone(),
+		vec![Box::new(StatusHook { rec: rec.clone() })],
+	));
+	let chain = Arc::new(init_chain(&format!("{}/main", dir), chain_adapter.clone()));
+	pool_adapter.set_chain(chain.clone());
+	let peers = Arc::new(grin_p2p::Peers::new(
+		grin_p2p::store::PeerStore::new(&format!("{}/peers", dir)).expect("peer store"),
+		Arc::new(grin_p2p::DummyAdapter {}),
+		grin_p2p::P2PConfig::default(),
+	));
+	chain_adapter.init(peers.clone());
 	let mut n = Node {
 		chain,
 		rec,
 		twin,
 		pool,
+		_peers: peers,
 		prec,
 		accepted_cands: HashSet::new(),
 		last_mine_key: None,
@@ -659,12 +733,16 @@ fn replay_one(beh: &Value, work: &str, idx: usize) -> Value {
 				let relay = s["relay"].as_bool().unwrap_or(true);
 				*n.prec.relay_ok.lock().unwrap() = relay;
 				n.prec.events.lock().unwrap().clear();
-				let tx = w.tx_of(&parts);
+				let tx = match s["form"].as_str().unwrap_or("commit") {
+					"declared" => w.with_declared_inputs(&w.tx_of(&parts), false),
+					"mislabelled" => w.with_declared_inputs(&w.tx_of(&parts), true),
+					_ => w.tx_of(&parts),
+				};
 				let header = n.chain.head_header().unwrap();
-				let before = n.pool.txpool.size();
-				let pre_real = ids_json(&w, &n.pool.txpool.all_transactions());
+				let before = n.pool.read().txpool.size();
+				let pre_real = ids_json(&w, &n.pool.read().txpool.all_transactions());
 				let r = catch_unwind(AssertUnwindSafe(|| {
-					n.pool.add_to_pool(TxSource::Broadcast, tx.clone(), stem, &header)
+					n.pool.write().add_to_pool(TxSource::Broadcast, tx.clone(), stem, &header)
 				}));
 				let evs: Vec<(String, Vec<u64>)> = n
 					.prec
@@ -711,8 +789,8 @@ fn replay_one(beh: &Value, work: &str, idx: usize) -> Value {
 					let admitted: Vec<u64> = evs.last().map(|(_, ids)| ids.clone()).unwrap_or(parts.clone());
 					let mut pre = pre_real.clone();
 					pre.push(admitted);
-					let tp = ids_json(&w, &n.pool.txpool.all_transactions());
-					let sp = ids_json(&w, &n.pool.stempool.all_transactions());
+					let tp = ids_json(&w, &n.pool.read().txpool.all_transactions());
+					let sp = ids_json(&w, &n.pool.read().stempool.all_transactions());
 					let gone: Vec<Vec<u64>> = pre.iter().filter(|e| !tp.contains(e)).cloned().collect();
 					if gone.len() == 1 {
 						let (_, vouts0) = w.ins_outs(&gone[0]);
@@ -738,8 +816,8 @@ fn replay_one(beh: &Value, work: &str, idx: usize) -> Value {
 							"over_capacity": before > cfg["maxpool"].as_u64().unwrap() as usize}));
 					} else if s["evict"].as_bool().unwrap_or(false) && res == "ok_fluff" {
 						// eviction: the property leaves the victim free among entries without dependants
-						let tp = ids_json(&w, &n.pool.txpool.all_transactions());
-						let sp = ids_json(&w, &n.pool.stempool.all_transactions());
+						let tp = ids_json(&w, &n.pool.read().txpool.all_transactions());
+						let sp = ids_json(&w, &n.pool.read().stempool.all_transactions());
 						let pre = sets_of(&s["pre"]);
 						let allowed: BTreeSet<Vec<u64>> = sets_of(&s["allowed"]).into_iter().collect();
 						let gone: Vec<Vec<u64>> = pre.iter().filter(|e| !tp.contains(e)).cloned().collect();
@@ -796,6 +874,13 @@ fn replay_one(beh: &Value, work: &str, idx: usize) -> Value {
 				}
 			}
 			"Connect" | "Reorg" => {
+				// how the blocks of this step reach the chain: relayed (NONE), mined here (MINE), body sync (SYNC)
+				let opts_name = s["opts"].as_str().unwrap_or("none").to_string();
+				let deliver = match opts_name.as_str() {
+					"sync" => Options::SYNC,
+					"mine" => Options::MINE,
+					_ => Options::NONE,
+				};
 				let d = s["d"].as_u64().unwrap_or(0);
 				let bs = sets_of(&s["bs"]);
 				let head = n.chain.head_header().unwrap();
@@ -848,10 +933,21 @@ fn replay_one(beh: &Value, work: &str, idx: usize) -> Value {
 						b
 					};
 					n.rec.log.lock().unwrap().clear();
-					if let Err(e) = n.chain.process_block(b.clone(), Options::SKIP_POW) {
-						mism.push(json!({"step": i, "what": "model_block_rejected_by_chain", "observed": format!("{:?}", e), "block": atoms}));
-						failed = true;
-						break;
+					// the real ChainToPoolAndNetAdapter::block_accepted runs inside process_block (hooks, broadcast
+					// to the - empty - peer set unless SYNC, pool reconciliation)
+					let pr = catch_unwind(AssertUnwindSafe(|| n.chain.process_block(b.clone(), Options::SKIP_POW | deliver)));
+					match pr {
+						Err(_) => {
+							mism.push(json!({"step": i, "what": "panic_in_block_accepted", "block": atoms, "opts": opts_name}));
+							failed = true;
+							break;
+						}
+						Ok(Err(e)) => {
+							mism.push(json!({"step": i, "what": "model_block_rejected_by_chain", "observed": format!("{:?}", e), "block": atoms}));
+							failed = true;
+							break;
+						}
+						Ok(Ok(_)) => {}
 					}
 					let tr = n.twin.process_block(b.clone(), Options::SKIP_POW);
 					if std::env::var("VERIF_DEBUG").is_ok() {
@@ -859,23 +955,10 @@ fn replay_one(beh: &Value, work: &str, idx: usize) -> Value {
 					}
 					let st = n.rec.log.lock().unwrap().last().map(|x| x.1.clone()).unwrap_or("none".into());
 					statuses.push(st.clone());
-					// --- the pool part of ChainToPoolAndNetAdapter::block_accepted ---
-					let r = catch_unwind(AssertUnwindSafe(|| {
-						if st == "next" || st == "reorg" {
-							let _ = n.pool.reconcile_block(&b);
-							let cutoff = chrono::Utc::now() - Duration::minutes(n.pool.config.reorg_cache_period as i64);
-							n.pool.truncate_reorg_cache(cutoff);
-						}
-						if st == "reorg" {
-							let _ = n.pool.reconcile_reorg_cache(&b.header);
-						}
-					}));
-					if r.is_err() {
-						mism.push(json!({"step": i, "what": "panic_in_block_accepted", "block": atoms}));
-					}
 					prev = b.header.clone();
 				}
 				o["statuses"] = json!(statuses);
+				o["opts"] = json!(opts_name);
 				if failed {
 					obs_steps.push(o);
 					break;
@@ -895,10 +978,11 @@ fn replay_one(beh: &Value, work: &str, idx: usize) -> Value {
 		}
 		let rc = real_checks(&w, &mut n, i, k, &mut mism);
 		o["real"] = rc;
-		o["txpool"] = json!(ids_json(&w, &n.pool.txpool.all_transactions()));
-		o["stempool"] = json!(ids_json(&w, &n.pool.stempool.all_transactions()));
+		o["txpool"] = json!(ids_json(&w, &n.pool.read().txpool.all_transactions()));
+		o["stempool"] = json!(ids_json(&w, &n.pool.read().stempool.all_transactions()));
 		o["cache"] = json!(n
 			.pool
+			.read()
 			.reorg_cache
 			.read()
 			.iter()
